@@ -114,6 +114,7 @@ func TestC13(t *testing.T) {
 		}
 		ub := u.Assemble()
 		c.add(1303, kind, true, args(L{uint64(u.SrcPort), uint64(u.DstPort)}, B(data)), args(B(ub)))
+		c.add(1312, kind, true, args(L{uint64(u.SrcPort), uint64(u.DstPort)}, B(data), B(ub)), args(L{1}))
 		src, dst := r.Uint32(), r.Uint32()
 		switch r.Intn(4) {
 		case 0:
@@ -123,13 +124,19 @@ func TestC13(t *testing.T) {
 		}
 		h := layer.IPv4{Identification: uint16(r.Uint32()), Flags: uint16(r.Uint32()), TTL: uint8(r.Uint32()), Protocol: 0x11, Source: ip4(src), Destination: ip4(dst), Data: ub}
 		pkt := emitIPv4Assemble(c, kind, h)
+		// the specification, evaluated by the model driver on the implementation's bytes (whatever came back: every payload
+		// up to the datagram maximum has to yield a valid packet)
+		if len(ub)+20 <= 65535 {
+			seg := []byte{}
+			if len(pkt) >= 20 {
+				seg = pkt[20:]
+			}
+			c.add(1310, kind, true, args(B(pkt)), args(L{1}))
+			c.add(1311, kind, true, args(L{uint64(src), uint64(dst)}, B(seg)), args(L{1}))
+			c.add(1313, kind, true, args(L{17, uint64(src), uint64(dst), uint64(h.TTL)}, B(ub), B(pkt)), args(L{1}))
+		}
 		if pkt == nil {
 			return
-		}
-		// the specification, evaluated by the model driver on the implementation's bytes
-		if len(pkt) <= 65535 {
-			c.add(1310, kind, true, args(B(pkt)), args(L{1}))
-			c.add(1311, kind, true, args(L{uint64(src), uint64(dst)}, B(pkt[20:])), args(L{1}))
 		}
 		emitDecodeIPv4(c, kind+"/rt", pkt)
 		emitDecodeUDP(c, kind+"/rt", pkt[20:])
@@ -208,6 +215,7 @@ func TestC13(t *testing.T) {
 		h := layer.IPv4{Identification: uint16(r.Uint32()), Flags: uint16(r.Uint32()), TTL: uint8(r.Uint32()), Protocol: proto, Source: ip4(r.Uint32()), Destination: ip4(r.Uint32()), Data: data}
 		if pkt := emitIPv4Assemble(c, "ip-any-proto", h); pkt != nil {
 			c.add(1310, "ip-any-proto", true, args(B(pkt)), args(L{1}))
+			c.add(1313, "ip-any-proto", true, args(L{uint64(proto), ipU32(h.Source), ipU32(h.Destination), uint64(h.TTL)}, B(data), B(pkt)), args(L{1}))
 			emitDecodeIPv4(c, "ip-any-proto/rt", pkt)
 		}
 	}
